@@ -1,6 +1,7 @@
 //go:build verif
 
 // Contracts for package peer, checked by /verif (bfvc). Comment-only.
+// Spec functions (edVerify, rawPub, digest, b58enc, ...) are declared in /verif/specs.
 package peer
 
 //@ ifacegetters GetPeer
@@ -10,3 +11,75 @@ package peer
 
 //@ func (ID).String
 //@   ensures ret == b58enc(id)
+
+// ---- C01 / C02: signatures ----
+
+// The byte string that is signed: context, hash type and digest, joined by " - SIGN - ".
+//@ spec fun signBody(ctx string, ht int, d bytes) bytes = ctx ++ " - SIGN - " ++ itoa(ht) ++ " - SIGN - " ++ d
+
+//@ func (*Signature).ParsePubKey
+//@   nilable-receiver
+
+//@ func (*Signature).Validate
+//@   nilable-receiver
+//@   ensures ret == nil ==> s != nil && (s.HashType == 0 || knownHash(s.HashType)) && len(s.SigData) > 0
+
+// ok is exactly the Ed25519 verdict on (key, signBody(context, type, digest(type, data)), signature);
+// objects with unknown/missing hash type or empty signature bytes are rejected with an error.
+//@ func (*Signature).VerifyWithPublic
+//@   nilable-receiver
+//@   ensures ret0 ==> s != nil && knownHash(s.HashType) && len(s.SigData) > 0
+//@   ensures ret0 ==> edVerify(rawPub(pubKey), signBody(encContext, s.HashType, digest(s.HashType, data)), s.SigData)
+//@   ensures (s == nil || !knownHash(s.HashType) || len(s.SigData) == 0) ==> !ret0 && ret1 != nil
+//@   ensures s != nil && knownHash(s.HashType) && len(s.SigData) > 0 && edVerify(rawPub(pubKey), signBody(encContext, s.HashType, digest(s.HashType, data)), s.SigData) ==> ret0 && ret1 == nil
+
+//@ func (*SignedMsg).Verify
+//@   ensures ret == nil ==> m.Signature != nil && knownHash(m.Signature.HashType) && len(m.Signature.SigData) > 0
+//@   ensures ret == nil ==> edVerify(rawPub(pubKey), signBody(encContext, m.Signature.HashType, digest(m.Signature.HashType, m.Data)), m.Signature.SigData)
+
+// The claimed sender decodes to an ID, and the key returned is the key embedded in that ID.
+//@ func IDFromBytes
+//@   ensures ret1 == nil ==> ret0 == content(b)
+//@ func IDB58Decode
+//@   ensures ret1 == nil ==> b58ok(s) && ret0 == b58dec(s)
+//@ func (*SignedMsg).ParseFromPeerID
+//@   ensures ret1 == nil ==> b58ok(m.FromPeerId) && ret0 == b58dec(m.FromPeerId)
+
+// multihash layout: uvarint(code) ++ uvarint(len(digest)) ++ digest
+//@ spec fun mhRest(b bytes) bytes = b[uvarintLen(b)..]
+//@ spec fun mhDigest(b bytes) bytes = mhRest(b)[uvarintLen(mhRest(b))..]
+//@ func decodeMultihash
+//@   ensures err == nil ==> code == uvarintVal(b) && content(digest) == mhDigest(b)
+//@   ensures err == nil ==> uvarintLen(b) > 0
+//@   ensures err == nil ==> uvarintLen(mhRest(b)) > 0
+//@   ensures err == nil ==> uvarintVal(mhRest(b)) == len(mhDigest(b))
+
+//@ func (ID).ExtractPublicKey
+//@   ensures ret1 == nil ==> ret0 != nil && uvarintVal(id) == 0 && pubKeyPBok(mhDigest(id)) && rawPub(ret0) == pubKeyFromPB(mhDigest(id))
+
+//@ func (*SignedMsg).ExtractPubKey
+//@   ensures ret2 == nil ==> b58ok(m.FromPeerId) && ret1 == b58dec(m.FromPeerId) && ret1 != ""
+//@   ensures ret2 == nil ==> ret0 != nil && pubKeyPBok(mhDigest(ret1)) && rawPub(ret0) == pubKeyFromPB(mhDigest(ret1))
+
+// C01: verification succeeds only for a message whose signature verifies, under the key
+// embedded in the claimed sender ID, over exactly signBody(context, type, digest(type, body)).
+//@ func (*SignedMsg).ExtractAndVerify
+//@   ensures ret2 == nil ==> len(m.Data) > 0 && len(m.FromPeerId) > 0
+//@   ensures ret2 == nil ==> b58ok(m.FromPeerId) && ret1 == b58dec(m.FromPeerId)
+//@   ensures ret2 == nil ==> ret0 != nil && pubKeyPBok(mhDigest(ret1)) && rawPub(ret0) == pubKeyFromPB(mhDigest(ret1))
+//@   ensures ret2 == nil ==> m.Signature != nil && knownHash(m.Signature.HashType) && len(m.Signature.SigData) > 0
+//@   ensures ret2 == nil ==> edVerify(rawPub(ret0), signBody(encContext, m.Signature.HashType, digest(m.Signature.HashType, m.Data)), m.Signature.SigData)
+
+// ---- C02: signing ----
+//@ func NewSignatureWithHashedData
+//@   ensures ret1 == nil ==> ret0 != nil && ret0.HashType == hashType && (hashType == 0 || knownHash(hashType))
+//@   ensures ret1 == nil ==> content(ret0.SigData) == edSign(rawPriv(privKey), signBody(encContext, hashType, hashData))
+//@   fresh ret0
+
+//@ func NewSignature
+//@   ensures ret1 == nil ==> ret0 != nil && ret0.HashType == hashType && knownHash(hashType)
+//@   ensures ret1 == nil ==> content(ret0.SigData) == edSign(rawPriv(privKey), signBody(encContext, hashType, digest(hashType, data)))
+//@   fresh ret0
+
+// sign-then-verify: both sides build the signed bytes with the same signBody term.
+//@ lemma sign-verify-roundtrip: forall k bytes, c string, t int, d bytes :: edVerify(pubOf(k), signBody(c, t, d), edSign(k, signBody(c, t, d)))
